@@ -340,6 +340,7 @@ ALPHABET = [
     (Fraction(1, 2), Fraction(3, 2), False, Fraction(1)),          # negative predicted reduction
     (Fraction(999999, 1000000), Fraction(999998, 1000000), False, Fraction(1)),   # tiny reductions: Ftol
     (Fraction(1, 2), Fraction(1, 4), False, Fraction(1, 10 ** 9)),  # tiny step: Ptol
+    (Fraction(4001, 4000), Fraction(1, 2), False, Fraction(1)),    # cost increases very slightly although a reduction was predicted
     (Fraction(0), Fraction(0), True, Fraction(1)),                 # zero residual at the current point
 ]
 
